@@ -428,7 +428,7 @@ class DesignGen:
     # children
     nchild = 0
     if c.level < self.opts.get('depth', 2) and rng.random() < self.opts.get('child', 0.55):
-      nchild = rng.randint(1, 2)
+      nchild = rng.randint(1, 2) if c.level == 0 else 1      # keep the flattened design small (the Lean store is a list)
     for k in range(nchild):
       self.uid += 1
       ch = self.build_comp(f'Sub{self.uid}', c.level + 1, False)
@@ -436,9 +436,9 @@ class DesignGen:
       n = None
       # a list of identical sub-components (struct-free in yosys: finding F10d)
       has_struct_in = any(s.T[0] == 's' for s in ch.ins)
-      if rng.random() < 0.25 and not (yos and has_struct_in) and not ch.ifcs:
+      if rng.random() < 0.3 and not (yos and has_struct_in) and not ch.ifcs and not ch.children:      # lists of leaf components only
         # 2-D lists only of leaf components (a 2x3 grid of sub-hierarchies makes the flattened design very large)
-        n = rng.choice([2, 2, 2, 2, (2, 2), (2, 3)]) if not ch.children else 2
+        n = rng.choice([2, 2, 2, (2, 2), (2, 3)])
         self.features.add('comp-array' + ('' if isinstance(n, int) else '-2d'))
       c.children.append((f'c{k}', ch, n))
       def inst():
